@@ -74,8 +74,9 @@ partial def parseFrame : List String → Option (Frame × List String)
     let k ← k.toNat?; let v ← v.toNat?; let (f, r) ← parseFrame r; pure (.tstore k v f, r)
   | "L" :: n :: t :: r => do
     let n ← n.toNat?; let t ← t.toNat?
-    if n > 4 then none else
-    let (f, r) ← parseFrame r; pure (.log n t f, r)
+    if h : n < 5 then
+      let (f, r) ← parseFrame r; pure (.log ⟨n, h⟩ t f, r)
+    else none
   | "D" :: a :: r => do let a ← parseAddr a; pure (.selfdestruct a, r)
   | "C" :: id :: kind :: tgt :: v :: r => do
     let id ← id.toNat?; let kind ← parseKind kind; let tgt ← parseAddr tgt; let v ← v.toNat?
